@@ -8,6 +8,9 @@ use clap::Parser;
 use rand::seq::SliceRandom;
 use rustc_hash::FxHashMap;
 
+#[cfg(feature = "verif-hooks")]
+mod verif_hooks;
+
 #[derive(Parser, Debug)]
 #[clap(author, version, about, long_about = None)]
 struct Args {
@@ -139,7 +142,10 @@ fn generate_graph(
     num_edges: usize,
     undirected: bool,
 ) -> anyhow::Result<Vec<(String, String)>> {
+    #[cfg_attr(feature = "verif-hooks", allow(unused_mut))]
     let mut rng = rand::thread_rng();
+    #[cfg(feature = "verif-hooks")]
+    let mut rng = verif_hooks::ScriptedRng::wrap(rng);
 
     let vertices = (0..num_vertices)
         .map(|vi| format!("v{}", vi))
